@@ -143,6 +143,65 @@ def made_archives(rng, count):
     return out
 
 
+def cab_checksum(data, seed=0):
+    """CFDATA checksum of the Cabinet format specification (XOR of little-endian 32-bit words, tail bytes folded)."""
+    cs = seed
+    n = len(data) // 4
+    for i in range(n):
+        cs ^= int.from_bytes(data[4 * i:4 * i + 4], 'little')
+    t = data[4 * n:]
+    ul = 0
+    if len(t) == 3:
+        ul = (t[0] << 16) | (t[1] << 8) | t[2]
+    elif len(t) == 2:
+        ul = (t[0] << 8) | t[1]
+    elif len(t) == 1:
+        ul = t[0]
+    return (cs ^ ul) & 0xffffffff
+
+
+def synthetic_cab(rng):
+    """A cabinet with one uncompressed folder, several members and CFDATA checksums.  libarchive cannot write
+    cabinets and the reference samples are a few hundred bytes, smaller than the reader's own look-ahead; this gives
+    the reader-side properties cabinets whose data blocks really are cut by the read blocks."""
+    nfiles = rng.choice([2, 3, 5])
+    sizes = [rng.choice([0, 1, 3, 4, 500, 1000, 1003, 1021, 4096, 9000, 33000]) for _ in range(nfiles)]
+    if not any(sizes):
+        sizes[0] = 1000
+    body = bytes((i * 7 + (i >> 8) * 13 + rng.randrange(4)) & 0xff for i in range(sum(sizes)))
+    names = [('f%d-%s.bin' % (i, 'x' * rng.choice([1, 10, 60]))).encode() for i in range(nfiles)]
+    blocks = [body[i:i + 32768] for i in range(0, len(body), 32768)] or [b'']
+    cffiles = b''
+    off = 0
+    for nm, sz in zip(names, sizes):
+        cffiles += sz.to_bytes(4, 'little') + off.to_bytes(4, 'little') + (0).to_bytes(2, 'little') + \
+            (0x5a21).to_bytes(2, 'little') + (0x6000).to_bytes(2, 'little') + (0x20).to_bytes(2, 'little') + nm + b'\0'
+        off += sz
+    coff_files = 36 + 8
+    coff_data = coff_files + len(cffiles)
+    cfdata = b''
+    for blk in blocks:
+        hdr = len(blk).to_bytes(2, 'little') + len(blk).to_bytes(2, 'little')
+        cs = cab_checksum(hdr, cab_checksum(blk)) if rng.random() < 0.85 else 0
+        cfdata += cs.to_bytes(4, 'little') + hdr + blk
+    total = coff_data + len(cfdata)
+    head = b'MSCF' + bytes(4) + total.to_bytes(4, 'little') + bytes(4) + coff_files.to_bytes(4, 'little') + bytes(4) + \
+        bytes([3, 1]) + (1).to_bytes(2, 'little') + nfiles.to_bytes(2, 'little') + bytes(2) + (0x1234).to_bytes(2, 'little') + bytes(2)
+    folder = coff_data.to_bytes(4, 'little') + len(blocks).to_bytes(2, 'little') + bytes(2)
+    return head + folder + cffiles + cfdata
+
+
+def synthetic_files(rng, count, tag):
+    """Paths of freshly written synthetic archives of formats libarchive reads but cannot write."""
+    d = os.path.join(core.OUT, 'scratch', 'mut'); os.makedirs(d, exist_ok=True)
+    out = []
+    for i in range(count):
+        p_ = os.path.join(d, f's{os.getpid()}_{tag}_{i}.cab')
+        open(p_, 'wb').write(synthetic_cab(rng))
+        out.append((f'synthetic-{i}.cab', p_))
+    return out
+
+
 class Part(ReadBase):
     """C05: same archive, same capabilities, another partition or byte source."""
     name = 'part'
@@ -172,6 +231,18 @@ class Part(ReadBase):
                 blk = rng.choice(['1', '3', '7', '7', '64', '511', '512', '513', '10240', 'r%d' % rng.randrange(1, 999), 'c%d' % rng.randrange(0, 3000)]) if v.startswith('cb') else 'w'
                 ops.append(f'run blk={blk} src={v} cons={cons} trunc=- fault=-')
             yield Case(f'part:made:{label}:{cls}', ops, {'cls': cls})
+        # synthetic archives of read-only formats (cabinet): every small block size, two-block cuts, small memory reads
+        for name, path in synthetic_files(rng, 6 if tier == 'quick' else 60, 'part'):
+            size = os.path.getsize(path)
+            cons = rng.choice(['A', 'A', 'a', 'S,A', 'A,S'])
+            ops = ['load ' + path, f'run blk=w src=cbk cons={cons} trunc=- fault=-']
+            for b in ['1', '2', '3', '5', '7', '11', '64', '513', 'r%d' % rng.randrange(1, 999)]:
+                ops.append(f'run blk={b} src={rng.choice(["cb", "cbs", "cbk"])} cons={cons} trunc=- fault=-')
+            for _ in range(6 if tier == 'quick' else 40):
+                ops.append(f'run blk=c{rng.randrange(0, size)} src=cb cons={cons} trunc=- fault=-')
+            ops += [f'run blk=w src=mem:{k} cons={cons} trunc=- fault=-' for k in (1, 2, 3)]
+            ops.append(f'run blk=w src=multi:{rng.randrange(1, size)} cons={cons} trunc=- fault=-')
+            yield Case(f'part:{name}:K', ops, {'cls': 'K'})
         # multi-volume sets whose border falls inside a member that is skipped, not read
         for i in range(10 if tier == 'quick' else 120):
             fmt = rng.choice(['ustar', 'pax', 'gnutar', 'newc', 'odc', 'v7tar'])
@@ -204,7 +275,7 @@ class Cons(ReadBase):
 
     def gen(self, rng, tier):
         n = 130 if tier == 'quick' else 400
-        for name, path in ref_pool(rng, n):
+        for name, path in ref_pool(rng, n) + synthetic_files(rng, 3 if tier == 'quick' else 30, 'cons'):
             size = os.path.getsize(path)
             src = rng.choice(['cbk', 'cbk', 'cb', 'cbs'])
             blk = rng.choice(['w', '512', '10240', 'r7'])
@@ -245,7 +316,7 @@ class Trunc(ReadBase):
 
     def gen(self, rng, tier):
         n = 60 if tier == 'quick' else 300
-        for name, path in ref_pool(rng, n, 120000):
+        for name, path in ref_pool(rng, n, 120000) + synthetic_files(rng, 3 if tier == 'quick' else 30, 'trunc'):
             size = os.path.getsize(path)
             src = rng.choice(['cbk', 'cb', 'cbs'])
             blk = rng.choice(['w', '512', '10240', '513'])
